@@ -15,6 +15,9 @@ package main
 // static eligibility test.
 
 import (
+	"fmt"
+	"go/types"
+
 	"golang.org/x/tools/go/ssa"
 )
 
@@ -56,10 +59,176 @@ func (p *Prog) helperCallee(in ssa.Instruction) *ssa.Function {
 		return nil
 	}
 	h := p.staticLocalCallee(c)
-	if h == nil || !p.inlinableHelper(h) {
+	if h == nil {
+		return nil
+	}
+	if _, viaParam := c.Call.Value.(*ssa.Parameter); viaParam {
+		// a function value the enclosing helper received from its caller:
+		// its body stands at this call when it is a closure or another helper
+		if p.inlinableValueTarget(h) {
+			return h
+		}
+		return nil
+	}
+	if !p.inlinableHelper(h) {
 		return nil
 	}
 	return h
+}
+
+// inlinableValueTarget: a closure, or an unknown top-level function, that a
+// helper calls through a function-typed parameter.
+func (p *Prog) inlinableValueTarget(f *ssa.Function) bool {
+	if f == nil || len(f.Blocks) == 0 || len(f.Blocks) > 60 || !p.IsLocal(f) {
+		return false
+	}
+	if f.Parent() == nil {
+		return p.inlinableHelper(f)
+	}
+	ok := true
+	for _, b := range f.Blocks {
+		for _, in := range b.Instrs {
+			switch in.(type) {
+			case *ssa.Go, *ssa.Defer, *ssa.RunDefers:
+				ok = false
+			}
+		}
+	}
+	return ok
+}
+
+// funcValueOf resolves a call argument to the function it denotes when that
+// is static (a function, a method expression, a closure created there).
+func (p *Prog) funcValueOf(v ssa.Value) *ssa.Function {
+	switch x := v.(type) {
+	case *ssa.Function:
+		f := x
+		if f.Synthetic != "" && len(f.Blocks) == 1 {
+			// a method expression's thunk: the method it forwards to
+			for _, in := range f.Blocks[0].Instrs {
+				if cl, ok := in.(*ssa.Call); ok {
+					if t := cl.Call.StaticCallee(); t != nil {
+						f = t
+					}
+				}
+			}
+		}
+		if o := f.Origin(); o != nil {
+			f = o
+		}
+		if p.IsLocal(f) {
+			return f
+		}
+	case *ssa.MakeClosure:
+		return x.Fn.(*ssa.Function)
+	case *ssa.ChangeType:
+		return p.funcValueOf(x.X)
+	case *ssa.Parameter:
+		return p.resolveFuncParam(x)
+	}
+	return nil
+}
+
+// resolveFuncParam: the function a function-typed parameter of a helper
+// denotes -- under the virtual call stack of the running enumeration (the
+// argument at the helper's call site on that stack), else when every call
+// site of the helper passes the same function.
+func (p *Prog) resolveFuncParam(v *ssa.Parameter) *ssa.Function {
+	h := v.Parent()
+	if h == nil || !p.inlinableHelper(h) {
+		return nil
+	}
+	if _, isSig := v.Type().Underlying().(*types.Signature); !isSig {
+		return nil
+	}
+	k := -1
+	for j, q := range h.Params {
+		if q == v {
+			k = j
+		}
+	}
+	if k < 0 {
+		return nil
+	}
+	for i := len(p.ctx) - 1; i >= 0; i-- {
+		s, ok := p.ctx[i].(*ssa.Call)
+		if !ok {
+			continue
+		}
+		if f, isF := s.Call.Value.(*ssa.Function); !isF || f != h || k >= len(s.Call.Args) {
+			continue
+		}
+		saved := p.ctx
+		p.ctx = p.ctx[:i]
+		f := p.funcValueOf(s.Call.Args[k])
+		p.ctx = saved
+		return f
+	}
+	var all *ssa.Function
+	for _, s := range p.helperSites(h) {
+		if k >= len(s.Call.Args) {
+			return nil
+		}
+		saved := p.ctx
+		p.ctx = nil
+		f := p.funcValueOf(s.Call.Args[k])
+		p.ctx = saved
+		if f == nil || (all != nil && all != f) {
+			return nil
+		}
+		all = f
+	}
+	return all
+}
+
+// valueEntry: function value C is passed at helper site `site` and called at
+// `call` inside that helper.
+type valueEntry struct {
+	call ssa.Instruction
+	site *ssa.Call
+}
+
+// valueEntries lists where closure/function c is entered through a helper's
+// function-typed parameter.
+func (p *Prog) valueEntries(c *ssa.Function) []valueEntry {
+	if p.valueSites == nil {
+		p.valueSites = map[*ssa.Function][]valueEntry{}
+		for _, g := range p.AllFuncs {
+			for _, b := range g.Blocks {
+				for _, in := range b.Instrs {
+					h := p.helperCallee(in)
+					if h == nil || h.Parent() != nil {
+						continue
+					}
+					s := in.(*ssa.Call)
+					if _, isF := s.Call.Value.(*ssa.Function); !isF {
+						continue
+					}
+					for k, arg := range s.Call.Args {
+						if k >= len(h.Params) {
+							break
+						}
+						if _, isSig := h.Params[k].Type().Underlying().(*types.Signature); !isSig {
+							continue
+						}
+						saved := p.ctx
+						p.ctx = nil
+						f := p.funcValueOf(arg)
+						p.ctx = saved
+						if f == nil || !p.inlinableValueTarget(f) {
+							continue
+						}
+						for _, r := range *h.Params[k].Referrers() {
+							if d, isCall := r.(*ssa.Call); isCall && d.Call.Value == ssa.Value(h.Params[k]) {
+								p.valueSites[f] = append(p.valueSites[f], valueEntry{d, s})
+							}
+						}
+					}
+				}
+			}
+		}
+	}
+	return p.valueSites[c]
 }
 
 // helperSites lists the plain static call sites of helper h.
@@ -168,21 +337,68 @@ func sameOrigin(a, b ssa.Value) bool {
 // (each helper once per enumeration).
 func deepInstrs(fn *ssa.Function, f func(ssa.Instruction)) {
 	seen := map[*ssa.Function]bool{fn: true}
+	seenSite := map[string]bool{}
+	saved := curProg.ctx
+	curProg.ctx = nil
+	defer func() { curProg.ctx = saved }()
 	var visit func(g *ssa.Function, depth int)
 	visit = func(g *ssa.Function, depth int) {
 		for _, b := range g.Blocks {
 			for _, in := range b.Instrs {
 				f(in)
 				if depth < maxHelperDepth {
-					if h := curProg.helperCallee(in); h != nil && !seen[h] {
-						seen[h] = true
-						visit(h, depth+1)
+					h := curProg.helperCallee(in)
+					if h == nil || h == fn {
+						continue
 					}
+					// a helper is enumerated once; one that calls a function it
+					// was given, and a function entered that way, once per site
+					// (what it calls depends on the site)
+					perSite := hasFuncParam(h)
+					if _, viaParam := in.(*ssa.Call).Call.Value.(*ssa.Parameter); viaParam {
+						perSite = true
+					}
+					if perSite {
+						key := fmt.Sprintf("%p", in)
+						for _, c := range curProg.ctx {
+							key += fmt.Sprintf("/%p", c)
+						}
+						if seenSite[key] {
+							continue
+						}
+						seenSite[key] = true
+						rec := false
+						for _, c := range curProg.ctx {
+							if c == in {
+								rec = true
+							}
+						}
+						if rec {
+							continue
+						}
+					} else {
+						if seen[h] {
+							continue
+						}
+						seen[h] = true
+					}
+					curProg.ctx = append(curProg.ctx, in)
+					visit(h, depth+1)
+					curProg.ctx = curProg.ctx[:len(curProg.ctx)-1]
 				}
 			}
 		}
 	}
 	visit(fn, 0)
+}
+
+func hasFuncParam(h *ssa.Function) bool {
+	for _, q := range h.Params {
+		if _, isSig := q.Type().Underlying().(*types.Signature); isSig {
+			return true
+		}
+	}
+	return false
 }
 
 // liftChain is one way an instruction is reached from an enclosing function:
@@ -201,7 +417,25 @@ func (p *Prog) chains(in ssa.Instruction) []liftChain {
 	rec = func(cur []ssa.Instruction, depth int) {
 		out = append(out, liftChain{append([]ssa.Instruction{}, cur...)})
 		g := cur[len(cur)-1].Parent()
-		if depth >= maxHelperDepth || p == nil || !p.inlinableHelper(g) {
+		if depth >= maxHelperDepth || p == nil {
+			return
+		}
+		// a function entered through a helper's parameter: the call inside
+		// the helper, then exactly the helper site that passed it
+		for _, ve := range p.valueEntries(g) {
+			dup := false
+			for _, x := range cur {
+				if x.Parent() == ve.call.Parent() || x.Parent() == ve.site.Parent() {
+					dup = true
+				}
+			}
+			if dup || depth+2 > maxHelperDepth {
+				continue
+			}
+			out = append(out, liftChain{append(append([]ssa.Instruction{}, cur...), ve.call)})
+			rec(append(append([]ssa.Instruction{}, cur...), ve.call, ve.site), depth+2)
+		}
+		if !p.inlinableHelper(g) {
 			return
 		}
 		for _, s := range p.helperSites(g) {
